@@ -123,6 +123,9 @@ private:
             }
         }
 
+        // Restore the shift that the user's operator was given at construction
+        m_op.set_shift(m_sigmar, m_sigmai);
+
         Base::sort_ritzpair(sort_rule);
     }
 
